@@ -233,12 +233,16 @@ int main(int argc, char **argv) {
         int rc = 0;
         bool quiet = argflag(argc, argv, "--quiet");
         for (int i = 2; i < argc; i++) {
-            if (argv[i][0] == '-') { if (!strcmp(argv[i], "--report") || !strcmp(argv[i], "--replay-out")) i++; continue; }
+            if (argv[i][0] == '-') { if (!strcmp(argv[i], "--report") || !strcmp(argv[i], "--replay-out") || !strcmp(argv[i], "--repeat")) i++; continue; }
             std::vector<uint8_t> bytes = read_file(argv[i]);
             // exact-size copy so that the replayed case sees the same memory layout rules
             verif::Case c;
             snprintf(g_crash_path, sizeof g_crash_path, "%s", "");   // never overwrite anything when replaying
             int v = run_case(bytes.data(), bytes.size(), true, c);
+            // a case that passes is executed again (three more times at most) in the same process: a failure that needs what an earlier
+            // execution left behind in the library (a cache, a lazily built table, a parked block) shows on the warm runs
+            const int repeat = atoi(argval(argc, argv, "--repeat", "3"));
+            for (int again = 0; again < repeat && v == verif::CASE_OK; again++) { verif::Case c2; v = run_case(bytes.data(), bytes.size(), true, c2); if (v != verif::CASE_OK) { c = c2; c.text += " [on repetition " + std::to_string(again + 2) + " of the case in one process]"; } }
             if (!quiet || v == verif::CASE_VIOLATION)
                 printf("%s: %s\n   case: %s\n%s%s%s", argv[i],
                        v == 0 ? "ok" : v == 1 ? "VIOLATES" : "discarded", c.text.c_str(),
